@@ -101,6 +101,27 @@ def np_full(interp, name, args, kw, st, node):
     return fresh_arr(term, dims, _L(fill), tag)
 
 
+@reg("numpy.zeros_like", "numpy.ones_like", "numpy.empty_like", "numpy.full_like")
+def np_like(interp, name, args, kw, st, node):
+    base = name.rsplit(".", 1)[1][:-5]
+    b = bind(["a", "fill_value", "dtype"] if base == "full" else ["a", "dtype"], args, kw)
+    a_ = b["a"]
+    sh = A.shape_of(a_) if a_.kind == "arr" else None
+    if sh is None or any(not d.known() for d in sh):
+        return fresh_arr(callterm(base + "_like", args, kw), sh, _L(*args))
+    dims = tuple(A.dim_term(d) for d in sh)
+    fill = b.get("fill_value")
+    tag = _dtype_tag(b.get("dtype"), fill) if b.get("dtype") is not None and b["dtype"].kind != "none" else (a_.extra if isinstance(a_.extra, str) else None)
+    if base == "empty":
+        base = "zeros"
+    term = T("full", fill.term, *dims) if base == "full" else T(base, *dims)
+    if isinstance(tag, str):
+        term = T("astype", term, tag)
+    else:
+        tag = None
+    return fresh_arr(term, sh, _L(fill) if fill is not None else frozenset(), tag)
+
+
 @reg("numpy.eye", "numpy.identity")
 def np_eye(interp, name, args, kw, st, node):
     d = dim_of(args[0]) if args else None
@@ -1266,6 +1287,8 @@ def attribute(interp, base, name, st, node):
         return V("func", T("method", base.term, name), func=("bound", _list_method(base, name), name))
     if base.kind == "dict":
         return V("func", T("method", base.term, name), func=("bound", _dict_method(base, name), name))
+    if base.kind == "objdict":
+        return V("func", T("method", base.term, name), func=("bound", A.objdict_method(base, name), name))
     if base.kind == "str":
         return V("func", T("method", base.term, name), func=("bound", lambda i, a, k, s, n: V("str", unk("str"), labels=_L(base, *a)), name))
     if base.kind == "tuple":
